@@ -396,10 +396,54 @@ def scn_start(T, case):
                 setattr(real, k, v)
 
 
+# ------------------------------------------------------------------------------------ what the plan steps hand on (shared contract)
+def cases_steps(tier):
+    from contracts import stepcontract
+
+    return stepcontract.cases(tier)
+
+
+def scn_steps(T, case):
+    from contracts import stepcontract
+
+    stepcontract.scenario(T, case, "C07")
+
+
+# ------------------------------------------------------------------------------------ population requests through the real evaluator
+def cases_batch(tier):
+    for B in (2,) + ((3,) if tier == "thorough" else ()):
+        for R in (2, 3):
+            yield "batch=%d/realizations=%d" % (B, R), {"B": B, "R": R}
+
+
+def scn_batch(T, case):
+    """Population (vectorized) methods: each row of a batch gets the ensemble value AT THAT ROW - every realization is evaluated
+    at every row and labelled as such (the optimizer-side scenario above uses an abstract ensemble; here the real evaluator
+    chain with realization-dependent functions)."""
+    from contracts import harness as H
+
+    B, R, Nv = case["B"], case["R"], 1
+    ch = H.Chain(T)
+    fs = [T.uf("objective_of_realization_%d" % r, 1) for r in range(R)]
+    w = T.real("weights", (R,), lo=0.001)
+    tot = T.total([w[r] for r in range(R)])
+    cfg = H.make_config(T, R, 1, 0, Nv, weights=w / tot, ow=T.const(np.array([1.0])), min_success=R)
+    sev = H.ScriptedEvaluator(T, ch, lambda v, r, p, k: T.np.array([fs[r](v[0])]))
+    ev = H.make_evaluator(T, ch, cfg, sev)
+    X = T.real("X", (B, Nv))
+    results = ev.calculate(X, compute_functions=True, compute_gradients=False)
+    T.prove("C07.batch.one_result_per_row", len(results) == B)
+    for b in range(min(B, len(results))):
+        want = T.total([(w[r] / tot) * fs[r](X[b, 0]) for r in range(R)])
+        T.prove("C07.batch.row_value_is_the_ensemble_value_at_that_row", T.same(results[b].functions.weighted_objective, want) & T.same(results[b].evaluations.variables, X[b, :]))
+
+
 SCENARIOS = [
     Scenario("optimizer_callables_from_any_state", scn_ops, cases_ops, {"quick": 3, "thorough": 20}),
     Scenario("evaluator_function_cache", scn_eval_cache, cases_eval_cache, {"quick": 5, "thorough": 30}),
     Scenario("start_begins_with_an_empty_cache", scn_start, cases_start, {"quick": 3, "thorough": 20}),
+    Scenario("plan_steps_hand_over", scn_steps, cases_steps, {"quick": 1, "thorough": 2}),
+    Scenario("population_requests_through_the_evaluator", scn_batch, cases_batch, {"quick": 3, "thorough": 20}),
 ]
 
 MANIFEST = {
